@@ -24,6 +24,9 @@ def ref_text(prog, ref, qualify=None, spell=None):
     c = ref["c"]
     if ref["r"] == 0:
         return c
+    if ref["r"] == 8:
+        # a scalar subquery over a table of its own
+        return "(select max(zc) from %szt)" % (qualify + "." if qualify else "")
     if ref["r"] == 9:
         # a qualifier that names nothing in scope is taken for a table name: textual qualification qualifies it like one
         return (qualify + "." if qualify else "") + "zz." + c
